@@ -19,6 +19,12 @@ pub struct Outcome {
 impl Outcome {
     pub fn fail(&mut self, sig: &str, detail: String) {
         if self.err.is_none() {
+            FIRST_FAILURE.with(|c| {
+                let mut c = c.borrow_mut();
+                if c.is_none() {
+                    *c = Some((sig.to_string(), detail.clone()));
+                }
+            });
             self.err = Some((sig.to_string(), detail));
         }
     }
@@ -27,9 +33,50 @@ impl Outcome {
     }
 }
 
-pub fn silence_panics() {
-    std::panic::set_hook(Box::new(|_| {}));
+thread_local! {
+    /// first disagreement recorded by the case that is running on this thread: if a later oracle of the same
+    /// case trips over the subject's wrong output and panics, the recorded disagreement is the verdict
+    static FIRST_FAILURE: std::cell::RefCell<Option<(String, String)>> = std::cell::RefCell::new(None);
 }
+thread_local! {
+    /// source location of the most recent panic on this thread (recorded by the hook of `silence_panics`)
+    static LAST_PANIC_AT: std::cell::RefCell<String> = std::cell::RefCell::new(String::new());
+}
+
+/// Panics are caught per case; the hook prints nothing but remembers WHERE the panic was raised, so
+/// that a panic inside the harness's own sources is reported as a machinery failure and never as a verdict.
+pub fn silence_panics() {
+    std::panic::set_hook(Box::new(|info| {
+        let at = info.location().map(|l| format!("{}:{}", l.file(), l.line())).unwrap_or_default();
+        LAST_PANIC_AT.with(|c| *c.borrow_mut() = at.clone());
+        if let Ok(mut g) = LAST_PANIC_ANY.lock() {
+            *g = at;
+        }
+    }));
+}
+/// location of the most recent panic on ANY thread (for panics that cross a rayon join before they are caught)
+static LAST_PANIC_ANY: std::sync::Mutex<String> = std::sync::Mutex::new(String::new());
+
+/// A panic caught outside the per-case guard (special runs, extra engines): verdict if raised in the
+/// crate under test or in std, machinery failure if raised in the harness's own sources.
+pub fn report_outer_panic(rep: &mut Report, what: &str, e: Box<dyn std::any::Any + Send>) {
+    let at = LAST_PANIC_ANY.lock().map(|g| g.clone()).unwrap_or_default();
+    let msg = panic_msg(e);
+    if is_harness_location(&at) {
+        rep.machinery_errors.push(format!("the harness itself panicked in {} at {}: {}", what, at, msg));
+    } else {
+        rep.violation(Violation { signature: "panic".into(), case: json!({"special": what}), detail: format!("subject panicked in {} at {}: {}", what, at, msg) });
+    }
+}
+pub fn last_panic_at() -> String {
+    LAST_PANIC_AT.with(|c| c.borrow().clone())
+}
+/// does a panic location lie in the verification harness (and not in the crate under test or in std)?
+pub fn is_harness_location(at: &str) -> bool {
+    ["common/src/", "glue/src/", "vc-graph/src/", "vc-filter/src/", "vc-msp/src/", "vc-kmer/src/", "vc-seq/src/", "vc-loom/src/", "rayon-shim/src/"].iter().any(|p| at.starts_with(p) || at.contains(&format!("/harness/{}", p)) || at.contains(&format!("/harness-loom/{}", p)))
+}
+/// signature used for a panic raised by the harness itself; `run_sweep` turns it into a machinery error
+pub const HARNESS_PANIC: &str = "harness-panic";
 
 fn panic_msg(e: Box<dyn std::any::Any + Send>) -> String {
     if let Some(s) = e.downcast_ref::<&str>() {
@@ -43,12 +90,20 @@ fn panic_msg(e: Box<dyn std::any::Any + Send>) -> String {
 
 /// run `f` catching panics; a panic of the subject is a verdict (totality), reported as violation
 pub fn guarded<F: FnOnce() -> Outcome>(f: F) -> Outcome {
+    FIRST_FAILURE.with(|c| *c.borrow_mut() = None);
     match catch_unwind(AssertUnwindSafe(f)) {
         Ok(o) => o,
         Err(e) => {
             let mut o = Outcome::default();
             o.transitions = 1;
-            o.fail("panic", format!("subject panicked: {}", panic_msg(e)));
+            let at = last_panic_at();
+            if let Some((sig, det)) = FIRST_FAILURE.with(|c| c.borrow_mut().take()) {
+                o.err = Some((sig, det));
+            } else if is_harness_location(&at) {
+                o.fail(HARNESS_PANIC, format!("the harness itself panicked at {}: {}", at, panic_msg(e)));
+            } else {
+                o.fail("panic", format!("subject panicked at {}: {}", at, panic_msg(e)));
+            }
             o
         }
     }
@@ -179,6 +234,10 @@ where
         }
     }
     for (i, sig, det) in viol.into_iter().take(20) {
+        if sig == HARNESS_PANIC {
+            report.machinery_errors.push(format!("part {} case {}: {}", cfg.name, describe(i), det));
+            continue;
+        }
         report.violation(Violation { signature: sig, case: describe(i), detail: det });
     }
 }
